@@ -2,7 +2,8 @@
    each is closed by [exact] of a lemma proved in Sys/Indenter_proofs.v about the model
    Sys/Indenter.v, whose conditions and constants are regenerated from lark/indenter.py. *)
 From Coq Require Import ZArith List Bool String Ascii.
-From LV Require Import Base.Prelude Sys.IndenterBase Gen.IndenterHoles Sys.Indenter Sys.Indenter_proofs.
+From LV Require Import Base.Prelude Sys.IndenterBase Gen.IndenterHoles Sys.Indenter Sys.Indenter_proofs
+     Sys.IndenterErr Sys.IndenterErr_proofs Gen.IndenterPos Sys.IndenterPos Sys.IndenterPos_proofs.
 Import ListNotations.
 Open Scope Z_scope.
 
@@ -76,6 +77,52 @@ Theorem C18_newline_is_line_step cfg st t o st' indent :
 Proof. exact (handle_NL_lstep cfg st t o st' indent). Qed.
 Print Assumptions C18_newline_is_line_step.
 
+(* The error paths, over the whole stream.  DedentError: exactly when some newline token that is reached without error and
+   outside brackets dedents to a column below the current level that is not an open level. *)
+Theorem C18_dedent_error_iff cfg ts st o st' e :
+  0 < tab_len cfg -> fresh cfg ts -> nl_ok cfg ts -> wf_stack (stack st) -> 0 <= paren st ->
+  run cfg st ts = (o, st', e) ->
+  (e = DedentErr <->
+   exists pre t post st1 indent,
+     ts = pre ++ t :: post /\ steps cfg st pre = Some st1 /\ ttype t = nl_type cfg /\ paren st1 <= 0 /\
+     line_indent cfg t = Some indent /\ indent < hd 0 (stack st1) /\ ~ In indent (stack st1)).
+Proof. exact (run_dedent_iff cfg ts st o st' e). Qed.
+Print Assumptions C18_dedent_error_iff.
+
+(* AssertionError: only from a closing bracket without an open one (the final `assert self.indent_level == [0]` never
+   fails); a stream whose brackets never go negative ends Done or with DedentError. *)
+Theorem C18_assert_iff_unmatched cfg ts st o st' e :
+  0 < tab_len cfg -> fresh cfg ts -> nl_ok cfg ts -> wf_stack (stack st) -> 0 <= paren st ->
+  run cfg st ts = (o, st', e) ->
+  (e = AssertErr -> unmatched cfg (paren st) ts = true) /\
+  (unmatched cfg (paren st) ts = false -> e = Done \/ e = DedentErr).
+Proof. exact (run_assert_iff cfg ts st o st' e). Qed.
+Print Assumptions C18_assert_iff_unmatched.
+
+(* Borrowed positions (Token.new_borrow_pos copies all position fields, Gen/IndenterPos.v).  The model with positions
+   projects to the model above ... *)
+Theorem C18_positions_forget (P : Type) cfg ts st last :
+  let '(o, s, e) := run_pos P cfg st last ts in (map fst o, s, e) = run cfg st (map fst ts).
+Proof. exact (run_pos_forget P cfg ts st last). Qed.
+Print Assumptions C18_positions_forget.
+
+(* ... and every emitted token is an input token at its own position, or an INDENT / DEDENT with the position of a NEWLINE
+   token of the input (the one whose handling emitted it), or an end-of-stream DEDENT with the position of the last token. *)
+Theorem C18_indent_tokens_positions (P : Type) cfg ts st last o s e :
+  run_pos P cfg st last ts = (o, s, e) ->
+  Forall (fun x : otok P =>
+            (exists p, snd x = Some p /\ In (fst x, p) ts) \/
+            (exists t p, snd x = Some p /\ In (t, p) ts /\ ttype t = nl_type cfg /\
+                         (ttype (fst x) = indent_type cfg \/ ttype (fst x) = dedent_type cfg)) \/
+            (ttype (fst x) = dedent_type cfg /\ snd x = List.last (map (fun tp => Some (snd tp)) ts) last)) o.
+Proof. exact (run_pos_positions P cfg ts st last o s e). Qed.
+Print Assumptions C18_indent_tokens_positions.
+
+(* the zero-position Token(...) in _process is dead code: an empty stream yields no DEDENT *)
+Theorem C18_no_zero_position_dedent (P : Type) cfg : process_pos P cfg [] = ([], mkSt h_p0 [h_i0], Done).
+Proof. exact (no_zero_position_dedent P cfg). Qed.
+Print Assumptions C18_no_zero_position_dedent.
+
 (* Non-vacuity: a concrete configuration and stream meet the hypotheses and exercise
    INDENT, nested brackets, a double DEDENT and the final DEDENT. *)
 Open Scope string_scope.
@@ -89,4 +136,16 @@ Example C18_example :
   map ttype (fst (fst (process ex_cfg (mkSt 3 [7; 0]) ex_stream)))
     = ["A"; "NL"; "IN"; "A"; "NL"; "IN"; "LP"; "RP"; "NL"; "DE"; "DE"; "A"; "NL"; "IN"; "A"; "DE"]
   /\ snd (process ex_cfg (mkSt 3 [7; 0]) ex_stream) = Done.
+Proof. vm_compute. repeat split; reflexivity. Qed.
+
+(* ... with positions: INDENT/DEDENT after the newline at position 2 / 8 carry 2 / 8, the final DEDENT the last token's 11;
+   and the two error paths *)
+Example C18_example_positions :
+  map (fun x => (ttype (fst x), pos_code (snd x)))
+      (fst (fst (process_pos nat ex_cfg (combine ex_stream (seq 1 (List.length ex_stream))))))
+  = [("A", 1); ("NL", 2); ("IN", 2); ("A", 3); ("NL", 4); ("IN", 4); ("LP", 5); ("RP", 7); ("NL", 8); ("DE", 8); ("DE", 8);
+     ("A", 9); ("NL", 10); ("IN", 10); ("A", 11); ("DE", 11)]%nat
+  /\ snd (process ex_cfg (mkSt 0 [0]) [mkTok "A" "a"; ex_nl "    "; mkTok "A" "b"; ex_nl "  "]) = DedentErr
+  /\ snd (process ex_cfg (mkSt 0 [0]) [mkTok "LP" "("; mkTok "RP" ")"; mkTok "RP" ")"]) = AssertErr
+  /\ unmatched ex_cfg 0 [mkTok "LP" "("; mkTok "RP" ")"; mkTok "RP" ")"] = true.
 Proof. vm_compute. repeat split; reflexivity. Qed.
